@@ -100,6 +100,8 @@ def rule_hash(ctx):
         if cons.verdict == "ok":
             res.ok()
             res.sample({"site": inst, "consumer": cons.how})
+        elif cons.verdict == "undecided":
+            res.undecided("%s : #%d selection-written-out" % (key, ordinal), "%s: %s" % (how, cons.how), fn_loc(fn, cons.node.get("ln") if isinstance(cons.node, dict) else None))
         elif cons.verdict == "derived":
             # order escapes to the caller; accounted for at the call sites (pass 2) unless it is a public API
             if fn["vis"] == "pub" and fn["d"].get("krate") and not is_internal(fn):
